@@ -9,7 +9,8 @@ RULE = ("(a) exhaustive: chains of length 1..3 (quick) / 1..4 (thorough), with a
         "placed in 9 nesting templates (top level, block, loop body, function body, inside a taken / not-taken branch of an "
         "outer chain, after a history prefix of else-less ifs, early returns and breaks); (a2) break / continue / return taken from each branch kind of an inner chain in a loop "
         "(directly or in a called function) inside each branch kind of an outer chain that still has branches after it; "
-        "(b) random structured programs. "
+        "(a3) chains whose conditions call a function that allocates enough to trigger a collection right after the condition, "
+        "in five contexts; (b) random structured programs. "
         "Output and end status are compared with the Lean model and with the structured big-step semantics of the tree. "
         "Non-trivial: the chain has an else or more than one condition.")
 ASSUMPTIONS = ["generated programs terminate; loops are counter-guarded"]
@@ -114,6 +115,26 @@ def cases(rng, tier, stats):
                         out.append(prog_case("exit-from-branch", prog, info={"exit": exit_kind, "inner": inner_pos, "outer": outer_pos, "call": via_call, "history": hist}))
                         n2 += 1
     stats["exit_from_branch_cases"] = n2
+    # (a3) conditions that do real work: the condition calls a function that allocates enough containers to make the
+    # interpreter collect garbage right after the condition is evaluated (between the `যদি` statement and its block /
+    # its `অথবা`), in every context
+    work = ("func", "যাচাই", ["মোট", "ফল"], [("decl", "সারি", G.lst()), ("decl", "গুনতি", G.num(0)),
+                                               ("loop", [("if", [(G.bin_(">=", G.var("গুনতি"), G.var("মোট")), [("break",)])], None),
+                                                         ("expr", G.call("_লিস্ট-পুশ", G.var("সারি"), G.lst(G.var("গুনতি"), G.num(1), G.num(2)))),
+                                                         ("assign", "গুনতি", [], G.bin_("+", G.var("গুনতি"), G.num(1)))]),
+                                               ("return", G.var("ফল"))])
+    n3 = 0
+    for L in (1, 2):
+        for truths in itertools.product([False, True], repeat=L):
+            for has_else in (False, True):
+                for sizes in ((300,) * L, (10, 300)[:L], (300, 10)[:L]):
+                    branches = [(G.call("যাচাই", G.num(sz), G.b(t)), [("print", G.s(f"ক{i}"))]) for i, (t, sz) in enumerate(zip(truths, sizes))]
+                    ch = ("if", branches, [("print", G.s("কe"))] if has_else else None)
+                    for k in (0, 1, 2, 3, 4):
+                        prog = [work] + templates(ch, k) + [ch, ("print", G.s("শেষ"))]
+                        out.append(prog_case("working-condition", prog, info={"truths": truths, "else": has_else, "sizes": sizes, "template": k}))
+                        n3 += 1
+    stats["working_condition_cases"] = n3
     # non-boolean condition
     for c in [G.num(1), G.s("x"), G.lst(), G.call("_টাইপ", G.num(1))]:
         out.append(prog_case("non-boolean-condition", [("print", G.s("a")), ("if", [(G.b(False), []), (c, [("print", G.s("b"))])], None), ("print", G.s("c"))]))
